@@ -56,6 +56,7 @@ func vfNewSerf(name string, bufLen int) *Serf {
 		eventBroadcasts: vfQueue(),
 		queryBroadcasts: vfQueue(),
 	}
+	s.eventJoinIgnore.Store(false)
 	vfEvChs[s] = ch
 	return s
 }
